@@ -86,7 +86,39 @@ def resolve(name):
     return typing._eval_type(t, dict(types.ALL_TYPES_MAP), {})
 
 
+def erase(j, keys):
+    if isinstance(j, dict):
+        return {k: erase(v, keys) for k, v in j.items() if k not in keys}
+    if isinstance(j, list):
+        return [erase(v, keys) for v in j]
+    return j
+
+
+def outcome(j, t):
+    strs, others = set(), set()
+    subvalues(j, strs, others)
+    try:
+        return "ok " + show(CONV.structure(j, t), others - strs)
+    except Exception:  # noqa: BLE001
+        return "err"
+
+
+def clean_step(line):
+    """`clean ROOT k1,k2 JSON`: the real-code side of the global C15 theorem - structuring the value with the
+    listed keys erased from every object gives what structuring the value gives."""
+    _, ty, keys, txt = line.split(" ", 3)
+    t = resolve(ty)
+    if t is None:
+        return "no-such-type"
+    j = json.loads(txt)
+    ks = {k for k in keys.split(",") if k}
+    a, b = outcome(j, t), outcome(erase(j, ks), t)
+    return "clean" if a == b else "differs"
+
+
 def step(line):
+    if line.startswith("clean "):
+        return clean_step(line)
     op, ty, txt = line.split(" ", 2)
     t = resolve(ty)
     if t is None:
